@@ -58,7 +58,7 @@ def make_partial(name, vendor, acl_text, run_fn, supported=True, acl_safe_text=N
 
 
 def old_new(device, gens, config_text, no_acl=False, add_implicit=False, no_acl_exclusive=False, acl_safe=False,
-            filter_acl_text=None, config="-", add_annotations=False):
+            filter_acl_text=None, config="-", add_annotations=False, no_new=False):
     """run _old_new_per_device for one device; returns OldNewResult (errors are in .err or raised)"""
     from annet import gen as ann_gen
     from annet.filtering import NopFilterer
@@ -73,7 +73,7 @@ def old_new(device, gens, config_text, no_acl=False, add_implicit=False, no_acl_
     dg.entire[device] = []
     dg.json_fragment[device] = []
     ctx = ann_gen.OldNewDeviceContext(
-        config=config, args=args, downloaded_files={}, failed_files={}, running={}, failed_running={}, no_new=False,
+        config=config, args=args, downloaded_files={}, failed_files={}, running={}, failed_running={}, no_new=no_new,
         stdin={"config": config_text, "filter_acl": filter_acl_text}, add_annotations=add_annotations, add_implicit=add_implicit,
         do_files_download=False, gens=dg, fetched_packages={}, failed_packages={}, device_count=1, do_print_perf=False,
     )
